@@ -31,7 +31,7 @@ ALLOWED_PLAIN_BINDERS = {
     "expr": "closure pattern in the discriminant initialiser; generated text only",
     "_": "wildcard",
 }
-USER_CALLABLE_TYPES = ("&alloc::borrow::Cow<'_, syn::expr::Expr>", "&darling_core::util::callable::Callable", "&&darling_core::util::callable::Callable", "alloc::borrow::Cow<'_, darling_core::util::callable::Callable>", "&alloc::borrow::Cow<'_, darling_core::util::callable::Callable>")
+USER_CALLABLE_TYPES = ("alloc::borrow::Cow<'_, syn::expr::Expr>", "darling_core::util::callable::Callable", "alloc::borrow::Cow<'_, darling_core::util::callable::Callable>")
 
 
 def facade(ctx):
